@@ -78,6 +78,8 @@ def klass(role: str, loc) -> str:
     k = 0
     while k < len(loc) and loc[k] in ("/", "B", "T", "S", "C"):
         k += 1
+    if any(t in ("T", "S", "C") for t in loc[:k]):
+        return "orig-ignored-char-in-leading-run"
     if "B" in loc[:k]:
         return "orig-slash-backslash-authority"
     if sum(1 for t in loc[:k] if t == "/") >= 3:
@@ -140,6 +142,34 @@ class _World:
         self._pk.httpx2, self._pk.time = self._saved
 
 
+def _raw_get(app, path, query, headers):
+    """GET straight through the WSGI callable (no wsgiref.validate).  A CR/LF in a header value is not deliverable."""
+    import falcon.testing
+    from http.cookies import SimpleCookie
+
+    env = falcon.testing.create_environ(path=path, query_string=query, headers=headers, method="GET")
+    got: dict = {}
+
+    def start_response(status, hdrs, exc_info=None):
+        got["status"], got["headers"] = status, list(hdrs)
+
+    try:
+        body = b"".join(app(env, start_response))
+    except Exception as e:  # noqa: BLE001
+        return e
+    hdrs = {}
+    cookies: dict = {}
+    for k, v in got.get("headers", []):
+        if "\r" in v or "\n" in v:
+            return ValueError("header value with CR/LF cannot be sent")
+        if k.lower() == "set-cookie":
+            for name, morsel in SimpleCookie(v).items():
+                cookies[name] = types.SimpleNamespace(value=morsel.value)
+        else:
+            hdrs[k.lower()] = v
+    return types.SimpleNamespace(status_code=int(got["status"].split()[0]), headers=hdrs, cookies=cookies, content=body)
+
+
 def _authenticate(req):
     from vgi_rpc.rpc import AuthContext
 
@@ -172,10 +202,10 @@ def _run(ctx: Ctx) -> None:
     flat_q = [":", "/", "B", "@", "H", "Hs", "l", "e", "x", "#", "?", "."]
     small = {"FlatAlphabet": S(flat_q + ["T", "S", "%", "8"]), "FlatLen": 2 if quick else 3,
              "TailAlphabet": S(["e", "l", "a", ":", "/", "B", "@", "?", "#", ".", "%", "S", "C", "T", "8", "[", "]", "i"]),
-             "TailLen": 2 if quick else 3, "PrefixSchemes": S(["H", "Hs"]), "PrefixSlashes": S(["/", "B"]), "BaseScheme": "H"}
+             "TailLen": 2 if quick else 3, "PrefixSchemes": S(["H", "Hs"]), "PrefixSlashes": S(["/", "B"]), "LeadLen": 2 if quick else 3, "BaseScheme": "H"}
     sanity = ["KindTotal", "WhitespaceInvisible", "BackslashIsSlash", "FragmentIrrelevant", "PathAbsoluteStays",
               "EscapeIsNoDelimiter"]
-    fams = [f + "(0)" for f in ("RtFlat", "RtTails", "RtNeigh", "OrigFlat", "OrigTails", "OrigNeigh")]
+    fams = [f + "(0)" for f in ("RtFlat", "RtTails", "RtNeigh", "RtLead", "OrigFlat", "OrigTails", "OrigNeigh", "OrigLead")]
     for base in (("H",) if quick else ("H", "Hs")):
         enumerate_families(ctx, "data", "Url", [f for f in fams if not (quick and "Neigh" in f)], constants={**small, "BaseScheme": base}, invariants=sanity,
                            name=f"Url:model-sanity(base={base})", emit=False)
@@ -184,11 +214,11 @@ def _run(ctx: Ctx) -> None:
     if quick:
         consts = {"FlatAlphabet": S(flat_q), "FlatLen": 3,
                   "TailAlphabet": S(["e", "l", "a", ":", "/", "B", "@", "8"]), "TailLen": 4,
-                  "PrefixSchemes": S(["H", "Hs"]), "PrefixSlashes": S(["/"]), "BaseScheme": "H"}
+                  "PrefixSchemes": S(["H", "Hs"]), "PrefixSlashes": S(["/"]), "LeadLen": 3, "BaseScheme": "H"}
     else:
         consts = {"FlatAlphabet": S(flat_q), "FlatLen": 4,
                   "TailAlphabet": S(["e", "l", "a", ":", "/", "B", "@", "?", "#", ".", "%", "S", "T", "8"]), "TailLen": 4,
-                  "PrefixSchemes": S(["H", "Hs"]), "PrefixSlashes": S(["/"]), "BaseScheme": "H"}
+                  "PrefixSchemes": S(["H", "Hs"]), "PrefixSlashes": S(["/"]), "LeadLen": 4, "BaseScheme": "H"}
     cases = enumerate_families(ctx, "data", "Url", fams, constants=consts, name="Url:enumerate")
     ctx.exhaustive = True
     ctx.rule = ("case = (role, config, token string) enumerated by TLC (all strings up to the bound in each family); "
@@ -265,6 +295,10 @@ def _run(ctx: Ctx) -> None:
         def get(client, path, query="", headers=None):
             try:
                 return client.simulate_get(path, query_string=query, headers=headers or {})
+            except AssertionError:
+                # falcon's test client runs wsgiref.validate, which refuses a TAB in a header value although HTTP allows
+                # it (RFC 9110 field-content) and real servers emit it: call the WSGI app directly
+                return _raw_get(client.app, path, query, headers or {})
             except Exception as e:  # noqa: BLE001 -- nothing reached the browser
                 return e
 
@@ -395,7 +429,7 @@ def _cookie_half(ctx: Ctx, pk, world: _World, clients, login, callback) -> None:
     ccases = table.enumerate_cases(ctx, "data", "Url", cases="CookieCases", expected="CookieExpected",
                                    invariants=["CookieSane"], name="Url:cookie-table",
                                    constants={"FlatAlphabet": S(["/"]), "FlatLen": 0, "TailAlphabet": S(["/"]), "TailLen": 0,
-                                              "PrefixSchemes": S(["H"]), "PrefixSlashes": S(["/"]), "BaseScheme": "H"})
+                                              "PrefixSchemes": S(["H"]), "PrefixSlashes": S(["/"]), "LeadLen": 0, "BaseScheme": "H"})
     max_age = int(getattr(pk, "_SESSION_MAX_AGE", 600))
     ages = {"fresh": [0], "mid": [1, max_age // 2], "edge_in": [max_age - 1], "edge": [max_age], "edge_out": [max_age + 1],
             "old": [max_age * 6, 86400 * 30], "future": [-1, -max_age, -86400]}
@@ -478,7 +512,7 @@ def _cookie_half(ctx: Ctx, pk, world: _World, clients, login, callback) -> None:
         ctx.sample({"cookie_case": o["case"], "mutation": o["_l"], "age_s": o["_age"], "observed": o["obs"]})
     bad = table.judge(ctx, "data", "Url", [{"case": o["case"], "obs": o["obs"]} for o in obs], conforms="CookieConforms",
                       constants={"FlatAlphabet": S(["/"]), "FlatLen": 0, "TailAlphabet": S(["/"]), "TailLen": 0,
-                                 "PrefixSchemes": S(["H"]), "PrefixSlashes": S(["/"]), "BaseScheme": "H"})
+                                 "PrefixSchemes": S(["H"]), "PrefixSlashes": S(["/"]), "LeadLen": 0, "BaseScheme": "H"})
     for idx, clauses in bad:
         o = obs[idx]
         for cl in clauses:
